@@ -11,8 +11,11 @@ import json, os, re, subprocess, sys, time, shutil, hashlib
 VERIF = os.path.dirname(os.path.dirname(os.path.abspath(__file__)))
 SPEC = os.path.join(VERIF, "spec")
 HARNESS = os.path.join(VERIF, "harness")
-WORK = os.path.join(VERIF, "work")
-OUT = os.path.join(VERIF, "out")
+WORK = os.environ.get("VERIF_WORK", os.path.join(VERIF, "work"))                # parallel development runs use their own
+OUT = os.environ.get("VERIF_OUT", os.path.join(VERIF, "out"))
+# Development aid only (seeded changes evaluated in their own worktree, several at a time): the registered commands never
+# set it, so they always build from /repo's working tree.
+ALT_REPO = os.environ.get("VERIF_REPO", "/repo").rstrip("/")
 EVID = os.environ.get("VERIF_EVIDENCE_DIR", os.path.join(VERIF, "evidence"))   # mutant runs write elsewhere
 JAR = "/opt/veriftools/tla/tla2tools.jar:/opt/veriftools/tla/CommunityModules-deps.jar"
 
@@ -43,6 +46,8 @@ def build_harness(profile="dbg", features=None):
     key = (profile, tuple(features or ()))
     if key in _built:
         return _built[key]
+    if ALT_REPO != "/repo":
+        return _build_alt(profile, features, key)
     lock = os.path.join(HARNESS, "Cargo.lock")
     if not os.path.exists(lock):
         shutil.copy("/repo/Cargo.lock", lock)
@@ -62,6 +67,35 @@ def build_harness(profile="dbg", features=None):
         raise ToolError("harness build failed (profile %s)" % profile)
     exe = os.path.join(HARNESS, tdir, "release" if profile == "rel" else "debug", "wfh")
     log("[build] wfh %s %s %.1fs" % (profile, features or "", time.time() - t0))
+    _built[key] = exe
+    return exe
+
+
+def _build_alt(profile, features, key):
+    """Same harness sources, path dependencies rewritten to another checkout of the repository, own target directory."""
+    d = os.path.join(WORK, "alt-harness")
+    os.makedirs(os.path.join(d, ".cargo"), exist_ok=True)
+    toml = open(os.path.join(HARNESS, "Cargo.toml")).read().replace('"/repo/', '"%s/' % ALT_REPO)
+    open(os.path.join(d, "Cargo.toml"), "w").write(toml)
+    shutil.copy(os.path.join(ALT_REPO, "Cargo.lock"), os.path.join(d, "Cargo.lock"))
+    shutil.copy(os.path.join(HARNESS, ".cargo", "config.toml"), os.path.join(d, ".cargo", "config.toml"))
+    if not os.path.islink(os.path.join(d, "src")):
+        os.symlink(os.path.join(HARNESS, "src"), os.path.join(d, "src"))
+    cmd = ["cargo", "build", "--offline", "--quiet"]
+    tdir = "target"
+    if features:
+        cmd += ["--features", ",".join(features)]
+        tdir = "target-" + "-".join(features)
+        cmd += ["--target-dir", tdir]
+    if profile == "rel":
+        cmd.append("--release")
+    t0 = time.time()
+    p = subprocess.run(cmd, cwd=d, env=dict(os.environ, CARGO_NET_OFFLINE="true"), stdout=subprocess.PIPE, stderr=subprocess.STDOUT, text=True)
+    if p.returncode != 0:
+        sys.stdout.write(p.stdout[-6000:])
+        raise ToolError("harness build failed (profile %s, repo %s)" % (profile, ALT_REPO))
+    exe = os.path.join(d, tdir, "release" if profile == "rel" else "debug", "wfh")
+    log("[build] wfh %s %s against %s %.1fs" % (profile, features or "", ALT_REPO, time.time() - t0))
     _built[key] = exe
     return exe
 
@@ -143,7 +177,8 @@ def run_tlc(module, cfg=None, workers=4, simulate=None, depth=None, seed=None, e
     e = dict(os.environ, JAVA_TOOL_OPTIONS=jopts)
     if env:
         e.update({k: str(v) for k, v in env.items()})
-    cmd = ["timeout", str(timeout), "java", "-XX:+UseParallelGC", "-Xmx" + xmx, "-cp", JAR, "tlc2.TLC",
+    # -Xss on the command line sizes the main thread (constants, ASSUMEs, initial states); JAVA_TOOL_OPTIONS only the workers
+    cmd = ["timeout", str(timeout), "java", "-Xss1g", "-XX:+UseParallelGC", "-Xmx" + xmx, "-cp", JAR, "tlc2.TLC",
            "-workers", str(workers), "-metadir", meta, "-cleanup", "-noGenerateSpecTE", "-deadlock", "-checkpoint", "0"]
     if coverage:
         cmd += ["-coverage", "1"]
